@@ -195,6 +195,16 @@ def features(pid, tier, seed, wd, bins, out):
         rc, o = sh([RUNNER, "--ops", ops, "--obs", mod, "--dbg", "1"], timeout=900)
         if rc != 0: raise ToolError("runner failed: " + o[-500:])
         bat[prof] = (ops, obs, mod)
+    # a slot recycled 300 times: generation numbering must not depend on the feature set
+    wrap = ["hist 0", "new 1", "qa"]
+    for c in range(300):
+        wrap += ["new %d" % (c + 2), "rem %d" % (c + 1)] + (["qa", "qr", "qf"] if c % 16 == 0 or 120 <= c <= 135 or 250 <= c <= 260 else [])
+    wrap += ["qa", "qr", "ql", "end"]
+    wops, wobs, wmod = os.path.join(wd, "bat.wrap.ops"), os.path.join(wd, "bat.wrap.obs"), os.path.join(wd, "bat.wrap.model")
+    open(wops, "w").write("\n".join(wrap) + "\n")
+    rc, o = sh([bins["debug"], "run", "--ops", wops, "--obs", wobs], timeout=120)
+    rc, o = sh([RUNNER, "--ops", wops, "--obs", wmod, "--dbg", "1"], timeout=120)
+    bat["wrap"] = (wops, wobs, wmod)
     mis_ops, mis_obs = os.path.join(wd, "bat.misuse.ops"), os.path.join(wd, "bat.misuse.obs")
     rc, o = sh([bins["debug"], "gen", "--seed", str(seed + 9), "--hists", str(hists), "--len", "40", "--profile", "misuse", "--ops", mis_ops, "--obs", mis_obs], timeout=300)
     have_misuse = (rc == 0)
@@ -262,7 +272,7 @@ def enum_scope(pid, tier, seed, wd, bins, out):
             cur = dict(ops=[], ids=[], flags="", slots=[], ok=True); hists.append(cur); continue
         if cur is None: continue
         if c in ("end",): continue
-        if c.startswith(("clear", "fork", "swap", "serde")): cur["ok"] = False      # keep shapes simple
+        if c.startswith(("clear", "fork", "forkfrom", "swap", "serde")): cur["ok"] = False      # keep shapes simple
         cur["ops"].append(c)
         if ob.startswith("r id "): cur["ids"].append(ob.split()[2])
         if ob.startswith("m"): cur["flags"] = ob[2:] if len(ob) > 2 else ""
